@@ -57,7 +57,7 @@ def stepC09 (fields : List String) : Option String :=
             let hNew := match newHeaderOf o' u with
               | .ok hdr => !openEnd hdr
               | .error _ => true
-            let d := [!c.merge, !o'.replace || !(c.style.name == "EmptyCommentStyle"), decide (NoExoticBreaks u),
+            let d := [!c.merge, styleOK o' u, decide (NoExoticBreaks u),
                       noIgnoreStart u, noIgnoreStart t', cleanSeam s.1, !openEnd s.1, !openEnd s.2.1, hNew, true]
             let hyp := stepGoodFullB o' u t'
             let before := extractRaw (foldLineEndings text)
